@@ -8,7 +8,9 @@
  */
 #include "sim.h"
 
+#define _GNU_SOURCE
 #include <string.h>
+#include <sys/mman.h>
 #include <librfn/messageq.h>
 
 enum { F_QUEUE_FULL };
@@ -16,7 +18,7 @@ static const char *const fault_names[] = { "queue_full_claim_refused", NULL };
 enum { P_DEPTH1, P_DEPTH32, P_WRAPPED, P_SEND_REORDERED, P_RECEIVE_BLOCKED, P_SLACK, P_HELD_DELAYED,
        P_NON_POW2_SIZE, P_BOTH_ROUTES, P_EMPTY_TRUE, P_EMPTY_FALSE, P_FULL_THEN_RELEASE, P_LONG_HISTORY,
        P_CLAIMS_OVER_256, P_BIG_MESSAGES, P_STORAGE_OVER_64K,
-       P_INIT_EXPRESSIONS, P_CLAIMS_OVER_65536 };
+       P_INIT_EXPRESSIONS, P_CLAIMS_OVER_65536, P_MISALIGNED_BASE, P_ACROSS_4GIB };
 static const char *const probe_names[] = {
 	"depth_1", "depth_32", "slot_index_wrapped", "send_out_of_claim_order",
 	"receive_blocked_by_unsent_oldest", "slack_bytes_present", "release_delayed",
@@ -24,7 +26,8 @@ static const char *const probe_names[] = {
 	"empty_reported_true", "empty_reported_false", "claim_succeeds_after_release_of_full_queue",
 	"history_of_900_to_2400_operations", "more_than_256_claims_on_one_queue",
 	"message_size_255_to_65535", "storage_larger_than_64KiB",
-	"static_initialiser_given_expression_arguments", "more_than_65536_claims_on_one_queue", NULL };
+	"static_initialiser_given_expression_arguments", "more_than_65536_claims_on_one_queue",
+	"base_address_not_aligned", "memory_across_a_multiple_of_4GiB", NULL };
 
 #define MAXDEPTH 32
 
@@ -32,7 +35,11 @@ typedef struct {
 	messageq_t *mq;
 	uint8_t *store;
 	uint32_t lead;		/* bytes of the caller's pool in front of the queue's memory */
+	uint32_t trail;		/* guard bytes behind it (only where no sanitizer redzone follows) */
 } route_t;
+
+static void *placed_map;	/* memory mapped at a chosen address for this run */
+static size_t placed_len;
 
 static route_t rt[2];
 static int nroutes;
@@ -73,6 +80,9 @@ static void check_slack(const char *after)
 		for (uint32_t i = 0; i < rt[r].lead; i++)
 			if (rt[r].store[(int)i - (int)rt[r].lead] != (uint8_t)(0x3c ^ i))
 				sim_fail(NULL, "OUTSIDE_TOUCHED", "after %s: byte %u of the pool in front of the queue's memory changed", after, i);
+		for (uint32_t i = 0; i < rt[r].trail; i++)
+			if (rt[r].store[base_len + i] != (uint8_t)(0x69 ^ i))
+				sim_fail(NULL, "OUTSIDE_TOUCHED", "after %s: byte %u behind the queue's memory changed", after, i);
 	}
 }
 
@@ -204,6 +214,10 @@ static void op_empty(void)
 
 static void run(void)
 {
+	if (placed_map) {
+		munmap(placed_map, placed_len);
+		placed_map = NULL;
+	}
 	static const uint8_t depths[] = { 1, 1, 2, 2, 3, 31, 32, 32, 8 };
 	uint32_t d = sim_choose(sizeof(depths) + 4);
 	depth = d < sizeof(depths) ? depths[d] : 1 + sim_choose(32);
@@ -239,12 +253,47 @@ static void run(void)
 		bool use_init = route == 0 || (route == 2 && r == 0);
 		/* the static initialiser is a macro: sometimes its arguments are expressions (a base
 		 * that is an offset into a pool of words, lengths that are sums and differences) */
-		uint32_t lead = !use_init && sim_chance(1, 3) ? 4 * (1 + sim_choose(3)) : 0;
-		uint8_t *block = sim_alloc(base_len + lead);	/* exact size: redzone behind (and in front when lead is 0) */
+		uint32_t lead = 0, trail = 0;
+		bool expr = false;
+		uint8_t *block;
+		if (!use_init && sim_chance(1, 3)) {
+			lead = 4 * (1 + sim_choose(3));
+			expr = true;
+		} else if (sim_chance(1, 4)) {
+			/* a pool carved out of a byte array: any alignment */
+			lead = 1 + sim_choose(7);
+			sim_probe(P_MISALIGNED_BASE);
+		}
+		if (sim_chance(1, 60) && base_len > 1 && r == 0) {
+			/* the caller's memory may be anywhere in the address space: here it lies across a
+			 * multiple of 4 GiB (a pointer held in 32 bits loses the carry) */
+			uintptr_t line = 0x7e0100000000ull + ((uintptr_t)sim_choose(4) << 32);
+			uintptr_t start = line - (1 + sim_choose(base_len - 1));
+			lead = trail = 16;
+			uintptr_t lo = (start - lead) & ~(uintptr_t)4095;
+			size_t maplen = ((start + base_len + trail + 4095) & ~(uintptr_t)4095) - lo;
+			void *m = mmap((void *)lo, maplen, PROT_READ | PROT_WRITE,
+				       MAP_PRIVATE | MAP_ANONYMOUS | MAP_FIXED_NOREPLACE, -1, 0);
+			if (m == (void *)lo) {
+				placed_map = m;
+				placed_len = maplen;
+				block = (uint8_t *)(start - lead);
+				expr = false;
+				sim_probe(P_ACROSS_4GIB);
+			} else {
+				lead = trail = 0;
+				block = sim_alloc(base_len);
+			}
+		} else {
+			block = sim_alloc(base_len + lead);	/* exact size: redzone behind (and in front when lead is 0) */
+		}
 		for (uint32_t i = 0; i < lead; i++)
 			block[i] = (uint8_t)(0x3c ^ i);
 		rt[r].store = block + lead;
 		rt[r].lead = lead;
+		rt[r].trail = trail;
+		for (uint32_t i = 0; i < trail; i++)
+			rt[r].store[base_len + i] = (uint8_t)(0x69 ^ i);
 		for (uint32_t i = base_len > 8192 ? depth * msg_len : 0; i < base_len; i++)
 			rt[r].store[i] = (uint8_t)(0xc3 ^ i);
 		rt[r].mq = sim_alloc(sizeof(messageq_t));
@@ -253,7 +302,7 @@ static void run(void)
 			memset(rt[r].mq, 0x5a, sizeof(messageq_t));	/* init must not depend on prior contents */
 			ONCE(4, messageq_init(ARG(rt[r].mq), ARG(rt[r].store), ARG(base_len), ARG(msg_len)));
 		} else {
-			if (lead) {
+			if (expr) {
 				uint32_t *pool = (uint32_t *)block;
 				uint32_t words = lead / 4, total = base_len + lead, ml_a = msg_len - 1, ml_b = 1;
 				messageq_t q = MESSAGEQ_VAR_INIT(pool + words, total - lead, ml_a + ml_b);
